@@ -319,8 +319,6 @@ def mutate_tree(pl, rng, root, spare_manifests=False):
         if k == 'touch':
             os.utime(fp, ns=(st.st_mtime_ns + 5 * 10**9, st.st_mtime_ns + 5 * 10**9))
             return (k, p, False)
-        if k == 'retype-fifo' and os.path.basename(p).startswith('Manifest') and not getattr(pl, 'allow_manifest_fifo', False):
-            return None        # a FIFO named like a Manifest blocks update for good (finding F20)
         os.unlink(fp)
         if k == 'retype-dir':
             os.mkdir(fp)
